@@ -1,6 +1,7 @@
 # Helpers shared by the Python-side rules.
 
 import ast
+from pyfront import clone as _clone
 import copy
 
 from report import AnalysisError
@@ -24,7 +25,7 @@ def deep_subst(func, extra=None, depth=4, exclude=()):
         for k, v in list(m.items()):
             names = {n.id for n in ast.walk(v) if isinstance(n, ast.Name)}
             if names & (set(m) - {k}):
-                nv = _Subst({a: b for a, b in m.items() if a != k}).visit(copy.deepcopy(v))
+                nv = _Subst({a: b for a, b in m.items() if a != k}).visit(_clone(v))
                 if ast.dump(nv) != ast.dump(v):
                     m[k] = nv
                     changed = True
@@ -110,7 +111,7 @@ def close_subst(m, depth=4):
         for k, v in list(m.items()):
             names = {n.id for n in ast.walk(v) if isinstance(n, ast.Name)}
             if names & (set(m) - {k}):
-                nv = _Subst({a: b for a, b in m.items() if a != k}).visit(copy.deepcopy(v))
+                nv = _Subst({a: b for a, b in m.items() if a != k}).visit(_clone(v))
                 if ast.dump(nv) != ast.dump(v):
                     m[k] = nv
                     changed = True
